@@ -36,10 +36,14 @@ SPECS['C03'] = {'runs': parse_runs('C03', ['C03'], 7, 9, 5, 6, 7, 8, extra=[
 HOSTS_RUN = lambda P, b: R('parse-hosts', 'h_parse.c', ['P_' + p for p in P] + ['GENTEXT=(G_SCHEME_OPT|G_AUTH_REQ|G_USERINFO|G_PORT|G_HOSTKINDS|G_EMPTYHOST)', 'GENK=1', 'GENL=1'], '[scheme] // [userinfo@] host [:port] [/seg]: every host kind incl. IPv4 with 1..3 digit octets and full-form IPv6, characters over [a-z] / digits', ['host-ip4', 'host-ip6', 'host-ipfuture', 'host-regname'], b)
 GENTEXT_RUN = lambda P, b: R('parse-shapes', 'h_parse.c', ['P_' + p for p in P] + ['GEN_WIDE_CHARS', 'GENTEXT=(G_SCHEME_OPT|G_AUTH|G_USERINFO|G_PORT|G_EMPTYHOST|G_QUERY|G_FRAG|G_PCT)', 'GENK=1', 'GENL=1'], 'shape-bounded texts with every optional component, every character over its full RFC 3986 class, one percent triplet (up to ~14 characters)', ['accepted', 'host-regname', 'has-scheme'], b)
 SPECS['C04'] = {'runs': parse_runs('C04', ['C04'], 6, 7, 4, 5, 6, 7, ip6=True), 'assumptions': COMMON_ASSUME, 'bounds': {'quick': 'N<=6, W N<=4, M<=6; shape-bounded IPv6 / IPv4 / authority texts', 'thorough': 'N<=7, W 5, M<=7'}, 'outside': 'longer texts'}
+def HOSTS_RUN_W(P, b):
+    r = HOSTS_RUN(P, b); r = dict(r); r['name'] = 'parse-hostsW'; r['defines'] = list(r['defines']) + ['WIDE']; r['bounds'] = 'wchar_t variant of parse-hosts: ' + r['bounds']
+    return r
 IP4_RUN = lambda P, b: R('parse-ip4', 'h_parse.c', ['P_' + p for p in P] + ['GEN_IP4_FULL', 'GENTEXT=(G_AUTH_REQ|G_PORT|G_HOSTKINDS)', 'GENK=0', 'GENL=1'], '//N.0.0.M[:port] with N and M of 1..3 fully symbolic digits (IPv4 exactly when both are dec-octets, else reg-name), plus the other host kinds', ['host-ip4', 'host-regname'], b)
 for _p in ('C01', 'C02', 'C04'):
     SPECS[_p]['runs']['quick'].append(IP4_RUN([_p], 600)); SPECS[_p]['runs']['thorough'].append(IP4_RUN([_p], 1200))
     SPECS[_p]['runs']['quick'].append(HOSTS_RUN([_p], 600)); SPECS[_p]['runs']['thorough'].append(HOSTS_RUN([_p], 1200)); SPECS[_p]['runs']['thorough'].append(GENTEXT_RUN([_p], 3000))
+    SPECS[_p]['runs']['quick'].append(HOSTS_RUN_W([_p], 600)); SPECS[_p]['runs']['thorough'].append(HOSTS_RUN_W([_p], 1200))
 SPECS['C05'] = {'runs': parse_runs('C05', ['C05'], 4, 5, 3, 4, 4, 5), 'assumptions': COMMON_ASSUME + ['maxChars: one unconstrained symbolic 32-bit int per URI; charsWritten NULL or not is a symbolic choice'],
     'bounds': {'quick': 'parsed URIs N<=4 (W 3, M<=4), every authority shape, small resolved and normalised URIs x every int maxChars', 'thorough': 'N<=5 (W 4, M 5), mixed resolved, normalised with all host kinds, created references'}, 'outside': 'ranges >= 2^31 characters'}
 
@@ -116,10 +120,10 @@ SPECS['C11'] = {'runs': {'quick': [R('equals', 'h_equals.c', ['KE=1', 'SEGL=1', 
                                       R('equals-hosts', 'h_equals.c', ['KE=0', 'SEGL=1', 'EFLAGS=(G_AUTH_REQ|G_USERINFO|G_PORT|G_HOSTKINDS)'], 'two authorities of every shape', ['equal', 'different'], 2400)]},
     'assumptions': COMMON_ASSUME, 'bounds': {'quick': 'pairs of small shapes', 'thorough': 'plus <=3 segments and all authority shapes'}, 'outside': 'transitivity is implied by the proved equivalence with text identity, not asserted on triples'}
 
-SPECS['C05']['runs']['quick'] += [HOSTS_RUN(['C05'], 900), IP4_RUN(['C05'], 900),
+SPECS['C05']['runs']['quick'] += [HOSTS_RUN(['C05'], 900), HOSTS_RUN_W(['C05'], 900), IP4_RUN(['C05'], 900),
     R('resolved', 'h_resolve.c', ['P_C05', 'KB=1', 'KR=2', 'SEGL=1'] + RES_PATH, 'resolved URIs (base <=1, reference <=2 one-character segments) x every int maxChars', RESCOV, 600),
     R('normalized', 'h_norm.c', ['P_C05', 'KN=2', 'SEGL=1', 'NFLAGS=(G_SCHEME_OPT|G_AUTH|G_QUERY|G_FRAG)', 'MASKS=63'], 'normalised (owned) URIs with every optional component x every int maxChars', ['owned-in-place', 'borrowed-copying'], 600)]
-SPECS['C05']['runs']['thorough'] += [HOSTS_RUN(['C05'], 2400),
+SPECS['C05']['runs']['thorough'] += [HOSTS_RUN(['C05'], 2400), HOSTS_RUN_W(['C05'], 2400),
     R('resolved', 'h_resolve.c', ['P_C05'] + RES_CM, 'resolved URIs (mixed config) x every int maxChars', ['ref-has-scheme'], 3000),
     R('normalized', 'h_norm.c', ['P_C05'] + NORM_CASE + ['MASKS=63'], 'normalised URIs, all host kinds x every int maxChars', ['host-ip6'], 3000),
     R('references', 'h_shorten.c', ['P_C05'] + SHORT, 'created references x every int maxChars', ['schemes-differ'], 3000)]
@@ -201,6 +205,11 @@ SPECS['C14'] = {'runs': {
     'bounds': {'quick': 'see runs', 'thorough': 'see runs'}, 'outside': 'uriComposeQueryMalloc (single allocation; its failure is covered by the repository test) and longer inputs'}
 
 # ---------------------------------------------------------------- C15 .. C20
+# C13 also on the cleanup paths: the failure-injection runs of C14, decided for allocator attribution (the C14 assertions are foreign there)
+for _t in ('quick', 'thorough'):
+    for _r in SPECS['C14']['runs']['quick']:
+        if _r['name'] in ('parse', 'resolve', 'resolve-hosts', 'shorten', 'normalize-dots', 'make-owner', 'dissect'):
+            _q = dict(_r); _q['name'] += '-failing'; _q['bounds'] = 'allocator attribution on cleanup paths: ' + _q['bounds']; SPECS['C13']['runs'][_t].append(_q)
 SPECS['C15'] = {'runs': {
     'quick': [R('history', 'h_memmgr.c', ['OPS=2'], 'every sequence of 2 operations (malloc/calloc/realloc/reallocarray/free) over 2 slots; malloc/realloc sizes arbitrary 64-bit; products from {0..3} x {0,1,2,3,2^63,SIZE_MAX,SIZE_MAX/3+1}; backend failure at any position; payload <= 2 bytes', ['two-allocations-two-releases', 'product-overflow', 'realloc-to-zero', 'realloc-failed-old-intact', 'realloc-grow-moved', 'realloc-shrink-in-place'], 600, opts={'solver_timeout_ms': 3000}),
               R('product', 'h_memmgr.c', ['OPS=1', 'MODE_PRODUCT'], 'calloc/reallocarray with one factor in 0..3 and the other an arbitrary 64-bit value', ['product-overflow'], 900, opts={'solver_timeout_ms': 3000}),
